@@ -181,14 +181,20 @@ fn run1<T: Flt>(src: &mut Src, obs: &mut Obs, qd: QDim, qrank: usize, dd: DDim, 
     let mut qshape = qshape;
     let axis_prefix = qshape.len() == 1 && src.chance(1, 8);
     let qlen = if axis_prefix { n + src.usize_in(0, 3) } else { product(&qshape) };
-    let very_long = qshape.len() == 1 && !axis_prefix && lanes <= 6 && src.chance(1, 150);
-    let qlen = if very_long { src.usize_in(4097, 9000) } else { qlen };
+    let axis_like = qshape.len() == 1 && !axis_prefix && n >= 3 && src.chance(1, 8);
+    let very_long = qshape.len() == 1 && !axis_prefix && !axis_like && lanes <= 6 && src.chance(1, 150);
+    let qlen = if very_long { src.usize_in(4097, 9000) } else if axis_like { n } else { qlen };
     let qs = if very_long {
         // block-wise processing of long batches: a small pool of points, cycled
         obs.class("query:very-long");
         qshape = vec![qlen];
         let pool = distinct_queries::<T>(src, &x, 16);
         (0..qlen).map(|k| pool[k % pool.len()]).collect()
+    } else if axis_like {
+        // n points, most of them the knots themselves
+        obs.class("query:axis-like-batch");
+        qshape = vec![n];
+        axis_like_batch::<T>(src, &x).into_iter().map(|(q, _)| T::of(q)).collect()
     } else if axis_prefix {
         obs.class("query:axis-prefix");
         qshape = vec![qlen];
@@ -441,6 +447,39 @@ fn run2<T: Flt>(src: &mut Src, obs: &mut Obs, qd: QDim, qrank: usize, dd: DDim, 
     obs.asserts += 1;
     if buf.iter().map(|v| v.key()).ne(r.v.iter().map(|v| v.key())) {
         fail!("into-vs-alloc", "2-D interp_array_into differs from interp_array for query {}{:?} data {}{:?}", qd.name(), qshape, dd.name(), g.shape());
+    }
+    // aliasing query arrays: xs and ys are two views of ONE allocation that start at the same element and have the same
+    // shape but different strides (last axis: every element / every second element)
+    let (lo, hi) = (x[0].max(y[0]), x[nx - 1].min(y[ny - 1]));
+    if !qshape.is_empty() && qlen >= 2 && lo < hi && src.chance(1, 4) {
+        obs.class("query:aliasing-xs-ys");
+        let last = qshape.len() - 1;
+        let mut big = qshape.clone();
+        big[last] *= 2;
+        let vals: Vec<T> = (0..product(&big)).map(|_| T::of(lo + (hi - lo) * src.unit())).map(|v| if v.f() < lo { T::of(lo) } else if v.f() > hi { T::of(hi) } else { v }).collect();
+        let a = ArrayD::from_shape_vec(IxDyn(&big), vals).unwrap();
+        let s = qshape[last];
+        let xs_v = a.slice_axis(ndarray::Axis(last), ndarray::Slice::new(0, Some(s as isize), 1));
+        let ys_v = a.slice_axis(ndarray::Axis(last), ndarray::Slice::new(0, Some(2 * s as isize), 2));
+        let ra = match catch(|| interp.t_array(xs_v.view(), ys_v.view(), qd)) {
+            Ok(Some(Ok(r))) => r,
+            Ok(Some(Err(e))) => fail!("in-range-rejected", "interp_array (aliasing xs / ys) rejected in-range queries: {e}"),
+            Ok(None) => fail!("oracle-bug", "query rank does not fit its static type"),
+            Err(p) => fail!("panic/interp_array", "2-D interp_array with aliasing query views panicked: {p}"),
+        };
+        for (k, (&qx, &qy)) in xs_v.iter().zip(ys_v.iter()).enumerate() {
+            let single = match catch(|| interp.t_interp(qx, qy)) {
+                Ok(Ok(a)) => a,
+                _ => fail!("in-range-rejected", "interp({:e}, {:e}) failed", qx.f(), qy.f()),
+            };
+            obs.asserts += 1;
+            for l in 0..lanes {
+                if ra.v[k * lanes + l].key() != single.v[l].key() {
+                    fail!("array-vs-interp/aliasing-queries", "xs and ys are views of one allocation (same start, same shape {:?}, different strides): interp_array[{k}] lane {l} = {:e} but interp({:e}, {:e}) = {:e}; query dim {}", qshape,
+                        ra.v[k * lanes + l].f(), qx.f(), qy.f(), single.v[l].f(), qd.name());
+                }
+            }
+        }
     }
     if qlen > 0 && src.chance(1, 3) {
         let mut bad = ys.clone();
